@@ -130,7 +130,7 @@ def strategy_e2e(tier):
 
     @st.composite
     def e2e(draw):
-        kind = draw(st.sampled_from(("scaling",) * 5 + ("xi1",) + (() if quick else ("threshold", "threshold"))))
+        kind = draw(st.sampled_from(("scaling",) * 5 + ("xi1",) + (() if quick else ("threshold",))))
         qed = draw(st.sampled_from((0, 0, 0, 1, 2))) if kind != "threshold" else 0
         n = draw(st.sampled_from((1, 2, 2) if quick else (1, 2, 2, 3, 3)))
         if qed and n == 1:
